@@ -965,6 +965,26 @@ func typeAssert(i *interpreter, instr *ssa.TypeAssert, itf iface) value {
 	return v
 }
 
+// copyAgg copies a struct or array value (the interpreter represents them as Go slices,
+// which would otherwise alias).
+func copyAgg(v value) value {
+	switch x := v.(type) {
+	case structure:
+		c := make(structure, len(x))
+		for i, f := range x {
+			c[i] = copyAgg(f)
+		}
+		return c
+	case array:
+		c := make(array, len(x))
+		for i, f := range x {
+			c[i] = copyAgg(f)
+		}
+		return c
+	}
+	return v
+}
+
 // This variable is no longer used but remains to prevent build breakage.
 var CapturedOutput *bytes.Buffer
 
@@ -988,7 +1008,14 @@ func callBuiltin(caller *frame, callpos token.Pos, fn *ssa.Builtin, args []value
 			return append(args[0].([]value), s.B...)
 		}
 		// append([]T, ...[]T) []T
-		return append(args[0].([]value), args[1].([]value)...)
+		// (struct and array elements are values: copy them, the stock interpreter
+		// shared their storage between the two slices)
+		src := args[1].([]value)
+		dst := args[0].([]value)
+		for _, e := range src {
+			dst = append(dst, copyAgg(e))
+		}
+		return dst
 
 	case "copy": // copy([]T, []T) int or copy([]byte, string) int
 		src := args[1]
@@ -999,7 +1026,16 @@ func callBuiltin(caller *frame, callpos token.Pos, fn *ssa.Builtin, args []value
 			params := fn.Type().(*types.Signature).Params()
 			src = conv(params.At(0).Type(), params.At(1).Type(), src)
 		}
-		return copy(args[0].([]value), src.([]value))
+		d, sv := args[0].([]value), src.([]value)
+		n := len(sv)
+		if len(d) < n {
+			n = len(d)
+		}
+		tmp := make([]value, n)
+		for i := 0; i < n; i++ {
+			tmp[i] = copyAgg(sv[i])
+		}
+		return copy(d, tmp)
 
 	case "close": // close(chan T)
 		close(args[0].(chan value))
